@@ -49,11 +49,11 @@ prop('C19', 'model_checking', 'exhaustive sweep over every filesystem size in a 
      'For every corpus image and for a populated filesystem of every size in a 1100-block window: e2image -r, -Q, -Q then -r, -ra. Oracle: every metadata block (set computed by the independent reader) byte-identical in the raw image, '
      'e2fsck -fn and dumpe2fs outputs identical on source and image, qcow2->raw equals the direct raw image byte for byte, -ra keeps every file (independent tree digest) and all primary metadata, source bytes unchanged after every run.',
      'quick: every 3rd size plus +-1 around every multiple of 128 and 512 blocks; 1 KiB blocks only for the size sweep.', '4/C19')
-prop('C20', 'model_checking', 'exhaustive product group count 1..50 x 9 backup layouts x block sizes, with resize2fs/tune2fs/e2fsck transitions; per state: exact backup set vs format rule and recovery from every backup location',
+prop('C20', 'model_checking', 'exhaustive product group count 1..50 x 11 backup layouts x block sizes, with resize2fs/tune2fs/e2fsck transitions; per state: exact backup set vs format rule and recovery from every backup location',
      'For every geometry of the product and after each tool transition: the set of groups whose first block carries a current superblock copy equals exactly the set the independent reader derives from the format rule (0, 1, powers of 3/5/7; '
      'the sparse_super2 pair; all groups without sparse_super), each copy is current (geometry, features, checksum); and for every such location, with the primary superblock and descriptors zeroed, e2fsck -fy -b <loc> -B <bs> exits <= 1, '
      'a following e2fsck -fn exits 0 and every file is intact; with default group size plain e2fsck finds the backup itself.',
-     'quick: 1 KiB blocks, group counts 1..12, 24..28, 49, 50; thorough adds 2 KiB and 4 KiB blocks and all counts 1..50. lost+found differences are ignored.', '4/C20')
+     'quick: 1 KiB blocks, group counts 1..12, 17, 18, 24..28, 33, 34, 49, 50; thorough adds 2 KiB and 4 KiB blocks and all counts 1..50. lost+found differences are ignored.', '4/C20')
 
 prop('C03', 'model_checking', 'exhaustive enumeration of generated journals (transaction shapes x tag/checksum formats x one deviation at every log position x every wrap point x sequence anomalies) replayed by both front-ends against an independent byte-level reference recovery model',
      'Journals are produced by an independent JBD2 writer (tools/xck/jbd2.py) into the log of corpus images (internal block-mapped, internal extent-mapped, external device): all shapes (logged subset x revoked subset x revoke position over 3 targets) for up to 2 (thorough 3) transactions, '
